@@ -1,7 +1,7 @@
 #!/bin/bash
 # usage: confirm_seed.sh <ID> <crate-dir-relative-tests-path> <package>   e.g. C01 signal-hook-registry/tests signal-hook-registry
 # Confirms in the agent's scratch worktree: builds, suite 36/36 with patch, demo fails with patch, passes without.
-id=$1; tdir=$2; pkg=$3
+id=$1; tdir=$2; pkg=$3; feat=${4:-}
 W=/tmp/seed/$id; O=/tmp/seed/out/$id
 export CARGO_TARGET_DIR=$W/target CARGO_NET_OFFLINE=true
 cd $W || exit 2
@@ -9,9 +9,9 @@ git checkout -q -- . ; git clean -fdq -e target
 demo=$(ls $O/demo | head -1); name=${demo%.rs}
 patch=$O/patch.diff; [ -f $O/patch.rebased.diff ] && patch=$O/patch.rebased.diff
 cp $O/demo/$demo $tdir/
-base=$(timeout 300 cargo test -p $pkg --test $name --offline 2>&1 | grep -E "^test result|panicked|error" | head -2 | tr '\n' ' ')
+base=$(timeout 300 cargo test -p $pkg --test $name --offline $feat 2>&1 | grep -E "^test result|panicked|error" | head -2 | tr '\n' ' ')
 git apply $patch || { echo "$id: patch does not apply"; exit 2; }
 suite=$(cargo nextest run --workspace --no-fail-fast --test-threads 8 --offline 2>&1 | grep -E "Summary" | head -1)
-withp=$(timeout 300 cargo test -p $pkg --test $name --offline 2>&1 | grep -E "^test result|panicked|error|timed out" | head -2 | tr '\n' ' ')
+withp=$(timeout 300 cargo test -p $pkg --test $name --offline $feat 2>&1 | grep -E "^test result|panicked|error|timed out" | head -2 | tr '\n' ' ')
 echo "$id | demo without patch: $base | suite with patch (incl. demo): $suite | demo with patch: $withp"
 git checkout -q -- . ; rm -f $tdir/$demo
